@@ -40,7 +40,12 @@ ASSUMPTIONS = [
     "asyncio itself is trusted: FIFO ready queue, timer heap, Handle.cancel flag tested when the handle is popped",
     "'starts' means the loop's read of Handle._cancelled when it pops the interval handle (DESIGN.md §8)",
     "loop-not-running case: the loop is not started before dispose() has returned (the property's proviso)",
-    "one scheduled action at a time; other handles in the loop interact with it only through FIFO order",
+    "one scheduled action per model instance. Justification: everything dispose() touches is local to the schedule call "
+    "that created it (`handle` is a fresh list / a single Handle captured by that call's closures, `sad` a fresh "
+    "SingleAssignmentDisposable, the Future a fresh object per dispose call); the scheduler object holds no mutable state "
+    "besides the loop reference; so two scheduled actions share only the loop's ready FIFO / timer heap, whose order among "
+    "the handles of ONE action the model keeps (rq) and whose other entries never touch those handles. Several "
+    "disposing threads for the same disposable go through CompositeDisposable/Disposable (C25/C26: the dispose action runs once)",
     "AsyncIOScheduler (not thread-safe) is claimed only for dispose on the loop thread or with the loop not running",
 ]
 TRUSTED_EXTRA = ["steppable asyncio loop harness/sched/thr2_aio.py (controlled clock, non-blocking selector, logging ready queue)",
